@@ -65,6 +65,25 @@ OBLIGATIONS += [
     tower("g2_dbl_xy", "h_g2", "G2 twist dbl, neg, get_xy, is_on_curve on the real Fp2, every curve over F_25", 5, ["-DPART=0"], tier="thorough", timeout=1800),
     tower("g2_equ_on_curve", "h_g2", "G2 equ / is_on_curve exact on the real Fp2, every curve over F_25", 5, ["-DPART=4"], tier="thorough", timeout=1800),
 ]
+ID_RM = ["sm9_z256_order", "sm9_z256_generator", "sm9_z256_twist_generator", "sm9_z256_modn_add", "sm9_z256_modn_sub", "sm9_z256_modn_mul", "sm9_z256_modn_inv", "sm9_z256_modn_from_hash",
+         "sm9_z256_rand_range", "sm9_z256_point_mul", "sm9_z256_point_mul_generator", "sm9_z256_point_add", "sm9_z256_point_sub", "sm9_z256_point_is_on_curve", "sm9_z256_point_equ",
+         "sm9_z256_point_to_uncompressed_octets", "sm9_z256_point_from_uncompressed_octets", "sm9_z256_twist_point_mul", "sm9_z256_twist_point_mul_generator", "sm9_z256_twist_point_add_full",
+         "sm9_z256_pairing", "sm9_z256_fp12_pow", "sm9_z256_fp12_mul", "sm9_z256_fp12_to_bytes"]
+def proto(name, entry, title, units, q=13, defs=(), **kw):
+    d = {"id": "C17.proto.%s.q%d" % (name, q), "harness": "harness/C17/proto.c", "entry": entry, "units": units + ["sm9_key.c", "sm9_z256.c", "hex.c"], "models": ["models/sm9_ideal.c"],
+         "remove": {"sm9_z256.c": [f for f in RM if f != "sm9_z256_from_hex"] + ID_RM}, "defs": ["-DSQ=%d" % q] + list(defs), "unwind": 8, "unwindset": ["sm9_z256_modn_from_hash.0:33", "strlen.0:70", "memcmp.0:34", "hex2bin.0:40", "hex_to_bytes.0:40"], "timeout": 900, "title": title,
+         "bounds": "ideal bilinear group of prime order %d (M7): every master secret, identity hash, nonce and H1/H2/KDF value; 1-byte identities and messages; at most one retry" % q,
+         "stubs": ["models/sm9_ideal.c: G1, G2, GT by discrete logarithm mod %d, pairing = product of logarithms, SM3 as injective transcript recorder, H1/H2/KDF lazily sampled random functions, rand_range arbitrary" % q]}
+    d.update(kw)
+    return d
+OBLIGATIONS += [
+    proto("sign_verify", "h_sign_verify", "extract, sm9_do_sign, sm9_do_verify: signature equations hold and the signature verifies (incl. the retry path)", ["sm9_sign.c"]),
+    proto("verify_sound", "h_verify_sound", "sm9_do_verify accepts exactly when h = H2(M || w') with w' from the verification equation", ["sm9_sign.c"]),
+    proto("verify_binding", "h_verify_binding", "a signature presented under an identity with another H1 value yields a different w'", ["sm9_sign.c"]),
+    proto("kem", "h_kem", "extract, sm9_kem_encrypt, sm9_kem_decrypt: C = [r]Q, both sides derive the same non-zero K (incl. the retry path)", ["sm9_enc.c"]),
+    proto("exch", "h_exch", "sm9_exch_step_1A/1B/2A: both parties derive the same key (incl. the retry path of 1B), 2A terminates", ["sm9_exch.c"]),
+    proto("exch_2A_untrusted", "h_exch_2A_untrusted", "sm9_exch_step_2A on an arbitrary RB: terminates after one KDF evaluation; success iff the key is not all zero", ["sm9_exch.c"]),
+]
 NOTE = ("C17: SM9. Decided here: the 256-bit limb layer and Fp add/sub/neg/dbl/tri/haf at full width, and the MAC-then-decrypt control flow. "
         "NOT decided (declared outside the claim): bilinearity / non-degeneracy of the R-ate pairing, the Fp2/Fp4/Fp12 tower and G1/G2 formulas, "
         "the 256-bit multiplier and Montgomery reduction (no solver verdict within reach, see DESIGN.md).")
